@@ -23,7 +23,8 @@ import time
 VERIF = os.path.dirname(os.path.dirname(os.path.abspath(__file__)))
 LEAN = os.path.join(VERIF, 'lean')
 REPO = os.environ.get('VERIF_REPO', '/repo')
-EVID = os.path.join(VERIF, 'evidence')
+# scratch runs against a mutated tree (VERIF_REPO) must not overwrite the committed evidence of /repo itself
+EVID = os.environ.get('VERIF_EVIDENCE_DIR') or os.path.join(VERIF, 'evidence')
 REPLAY = os.path.join(EVID, 'replay')
 ALLOWED_AXIOMS = {'propext', 'Classical.choice', 'Quot.sound'}
 FORBIDDEN = re.compile(r'\b(sorry|admit|native_decide|bv_decide|implemented_by|unsafe)\b|^\s*axiom\s|maxHeartbeats\s+0\b')
